@@ -542,3 +542,11 @@ def nfc_like_pool():
     (a case fold applied before or after normalisation gives different results on them)"""
     return _base_pool() + ["ℋ", "H", "㎒", "MHz", "İ", "İ", "Ⅻ", "XII", "Ǆ", "DŽ", "ǅ",
                            "Ａｂ", "Ⓐ", "ẞ", "ϒ", "ϓ", "ﬅ", "K", "Å", "ẛ"]
+
+
+_pool2 = nfc_like_pool
+
+
+def nfc_like_pool():
+    """... plus U+034F typed by the user (real NFKD keeps it) next to characters that NFKD lengthens"""
+    return _pool2() + ["a͏b", "é͏", "͏Ａ", "ﬁ͏é"]
